@@ -163,6 +163,17 @@ def explore_msgs(chk, g, n, tag):
         how = i % 4
         bad = [k for k in kids if isinstance(k, bromgen.Failed)]
         m = bad[0].err if bad else guarded(lambda: build_message(g, how, hf, kids))
+        # a fifth way: an AVP of the built message is replaced by item assignment (sizes of old and new differ freely)
+        if not isinstance(m, str) and kids and len(set(map(id, kids))) == len(kids) and r.random() < 0.3:
+            o, t = g.tree(r.choice([0, 1]))
+            if not isinstance(o, bromgen.Failed):
+                j = r.randrange(len(kids))
+
+                def assign(m=m, j=j, o=o):
+                    m[j] = o
+                    return m
+                m = guarded(assign)
+                kids[j], toks[j] = o, t
         msgs.append(m)
         lines.append("msg %d %d %d %d %d %d %d %s" % (hf + (len(kids), " ".join(" ".join(t) for t in toks))))
     out = core.run_driver(lines)
@@ -193,7 +204,7 @@ def run(chk):
     chk.rule = ("content trees built through the public API from the repo's own dictionary (every class reachable, values per "
                 "data-type kind with boundary values and every length residue, Grouped members from the class's own tables, "
                 "nesting depth up to 4, repeated members, container operations pop/append/extend/avps-setter applied to built Grouped AVPs, AVP lengths across 2^16, generic AVPs with/without vendor, M/P flag overrides) and messages "
-                "with boundary/random header fields built by append / constructor list / extend / avps setter; a case is the "
+                "with boundary/random header fields built by append / constructor list / extend / avps setter, optionally followed by an item assignment replacing one AVP; a case is the "
                 "descriptor line sent to the Lean driver; distinct = distinct descriptor lines.")
     chk.trusted += ["correspondence harness props/c01.py + generators harness/bromgen.py", "CPython bytes/struct/str.encode('utf-8')",
                     "Gen/Dictionary.lean translator (validated against live instances by C10)"]
